@@ -475,7 +475,7 @@ func (env *Env) modTargets(c *Contract) []modTarget {
 		src := exprString(m)
 		switch x := m.(type) {
 		case *ECall:
-			if x.Fn == "onceDone" || x.Fn == "locked" {
+			if x.Fn == "onceDone" || x.Fn == "locked" || x.Fn == "lockCount" {
 				if lv := env.evalLV(x.Args[0]); lv != nil && strings.HasPrefix(e.typeName(lv.Typ), "sync.") {
 					out = append(out, modTarget{ghost: x.Fn, key: env.fc.interiorPtr(lv), src: src})
 					continue
@@ -508,7 +508,7 @@ func (env *Env) modTargets(c *Contract) []modTarget {
 				out = append(out, modTarget{ghost: "chanClosed", key: k.one(), src: src})
 				continue
 			}
-			if x.Fn == "onceDone" || x.Fn == "locked" {
+			if x.Fn == "onceDone" || x.Fn == "locked" || x.Fn == "lockCount" {
 				if lv := env.evalLV(x.Args[0]); lv != nil {
 					out = append(out, modTarget{ghost: x.Fn, key: env.fc.interiorPtr(lv), src: src})
 					continue
